@@ -352,7 +352,7 @@ def run_route(c):
     return None
 
 
-SHOW2D_ARR = [("S",), ("S", "S"), ("C2",), ("N2",), ("N3",), ("C2", "S"), ("S", "N2"), ("C1", "C2"), ("M",)]
+SHOW2D_ARR = [("S",), ("S", "S"), ("C2",), ("N2",), ("N3",), ("C2", "S"), ("S", "N2"), ("C1", "C2"), ("M",), ("N2", "S"), ("N3", "C2")]
 
 
 def run_show2d(c):
@@ -361,6 +361,10 @@ def run_show2d(c):
     import magpylib as magpy
 
     items, fac = build_list(c["kinds"], [1] * len(c["kinds"]))
+    if c.get("show_sub"):
+        # only a sub-collection of the first item is displayed (its parent is not), next to the remaining items
+        subs = [ch for ch in items[0].children if hasattr(ch, "children")]
+        items = [subs[0]] + items[1:]
     npath = 4
     sens = magpy.Sensor(position=np.linspace((-1.0, 0.3, 2.0), (3.0, -0.2, 2.5), npath), style_label="probe")
     out = c["output"]
@@ -457,6 +461,8 @@ def enumerate_cases(tier):
     for kinds in SHOW2D_ARR:
         for out in ("Bx", "Hz", "By"):
             cases.append({"part": "show2d", "kinds": list(kinds), "output": out})
+            if kinds[0] in ("N2", "N3"):
+                cases.append({"part": "show2d", "kinds": list(kinds), "output": out, "show_sub": True})
     for cls in lin_sources():
         for field in ("B", "H"):
             for i in range(len(VECS)):
